@@ -189,3 +189,11 @@ Definition sp_expected_events (target : option Z) (m : Z) (before after : bool) 
     else if before then gone else []
   | None => if before then gone else []
   end.
+
+(* To whom one event goes: the subscribers of the event are called in registration order; a subscriber that raises ends
+   the loop, so the event reaches the subscribers up to and including the first one that raises. *)
+Fixpoint sp_cut {A} (raises : A -> bool) (l : list A) : list A :=
+  match l with
+  | [] => []
+  | x :: r => if raises x then [x] else x :: sp_cut raises r
+  end.
